@@ -30,7 +30,7 @@ def must_see(tier):
 def plan(tier, seed):
     q = tier == 'quick'
     return [dict(label='len-%d' % i, seed=seed, part=i, tier=tier,
-                 n=20000 if q else 3000000, variant='mon', timeout=900)
+                 n=20000 if q else 3000000, variant='mon', timeout=3000)
             for i in range(4 if q else 16)]
 
 
